@@ -32,7 +32,7 @@ Lift(st, g) ==
 \* observed facts that the lifted form does not carry
 WeightIsSpaceTimesDuration(st) ==
   \A i \in 1..Len(st.m.sectors) : LET x == st.m.sectors[i] IN
-     /\ x.simple /\ ~x.faulty
+     /\ x.simple
      /\ x.exp > x.base /\ x.vw = (x.vw \div (x.exp - x.base)) * (x.exp - x.base)
      /\ x.qa = SectorSize + 9 * (x.vw \div (x.exp - x.base))
 GetClaimsAgrees(st) == ToMap(st.gc, LAMBDA x : x.id, LAMBDA x : x.c) = ToMap(st.vr.claims, LAMBDA x : x.id, LAMBDA x : x.c)
@@ -48,16 +48,17 @@ ResultsMatch(e, r) ==
     [] e.a \in {"ProveCommit", "ReplicaUpdate", "ExtendClaimTerms"} -> (e.ok => r.res = e.res)
     [] e.a \in {"RemoveExpiredAllocs", "RemoveExpiredClaims"} -> (e.ok => r.removed = ToSet(e.removed))
     [] OTHER -> TRUE
-Observed(st) == [qa |-> st.pow.qa, raw |-> st.pow.raw]
+\* (the driver proves every sector in time: none is ever faulty)
+Observed(st) == [qa |-> st.pow.qa, raw |-> st.pow.raw, faulty |-> {i \in 1..Len(st.m.sectors) : st.m.sectors[i].faulty}]
 Explained(e) ==
   IF e.a = "Tick"
   THEN /\ e.cronOK /\ Len(e.notes) = 0 /\ VR' = VR /\ epoch' = epoch + e.n
        /\ AbsSM(SM, epoch') = AbsSM(SM', epoch')
-       /\ Observed(e.st) = [qa |-> PowQA(SM, epoch'), raw |-> AbsSM(SM, epoch').raw]
+       /\ Observed(e.st) = [qa |-> PowQA(SM, epoch'), raw |-> AbsSM(SM, epoch').raw, faulty |-> {}]
   ELSE LET r == CDo(VR, SM, e, epoch) IN
        /\ r.ok = e.ok /\ VR' = r.VR /\ ResultsMatch(e, r) /\ epoch' = epoch
        /\ AbsSM(r.SM, epoch) = AbsSM(SM', epoch)
-       /\ Observed(e.st) = [qa |-> PowQA(r.SM, epoch), raw |-> AbsSM(r.SM, epoch).raw]
+       /\ Observed(e.st) = [qa |-> PowQA(r.SM, epoch), raw |-> AbsSM(r.SM, epoch).raw, faulty |-> {}]
 Chk(prop, name, holds, e) == IF holds THEN TRUE ELSE PrintT(<<"VIOL", prop, name, l, "-", e.a>>)
 Note(cond, name) == IF cond THEN PrintT(<<"NOTE", "C10", name, l>>) ELSE TRUE
 TGhost(g, e, st) ==
